@@ -175,6 +175,231 @@ def _chain_worker(d, chunk, extra):
     return out
 
 
+# ------------------------------------------------------------------ DIEs with both links, and long chains
+def link_trees(n):
+    """Every integration tree with exactly n DIEs: a node is a tuple of (kind, subtree) links in stored order, kinds distinct."""
+    if n == 1:
+        return [()]
+    out = []
+    for k in "sa":
+        for t in link_trees(n - 1):
+            out.append(((k, t),))
+    for n1 in range(1, n - 1):
+        n2 = n - 1 - n1
+        for t1 in link_trees(n1):
+            for t2 in link_trees(n2):
+                out.append((("s", t1), ("a", t2)))
+                out.append((("a", t1), ("s", t2)))
+    return out
+
+
+def all_nodes(t):
+    yield t
+    for _, c in t:
+        yield from all_nodes(c)
+
+
+def tree_nodes(t):
+    return 1 + sum(tree_nodes(c) for _, c in t)
+
+
+BOTH_NAMES = [("DW_AT_name", "DW_FORM_string"), ("DW_AT_decl_line", "DW_FORM_data1")]
+
+
+def both_file(tree, version=4):
+    """One unit holding, for every presence pattern of BOTH_NAMES over the tree's DIEs, one copy of the tree.
+    Returns (ElfFile, [root die of each copy])."""
+    n = tree_nodes(tree)
+    kids, roots = [], []
+    for pat in range(4 ** n):
+        idx = [0]
+
+        def mk(t):
+            i = idx[0]
+            idx[0] += 1
+            m = pat >> (2 * i) & 3
+            attrs = []
+            if m & 1:
+                attrs.append(A("DW_AT_name", "DW_FORM_string", b"n%d" % i))
+            if m & 2:
+                attrs.append(A("DW_AT_decl_line", "DW_FORM_data1", 10 + i))
+            d_ = D("DW_TAG_subprogram", attrs)
+            made = [d_]
+            for j, (k, c) in enumerate(t):
+                sub = mk(c)
+                link = A("DW_AT_specification" if k == "s" else "DW_AT_abstract_origin", "DW_FORM_ref4", sub[0])
+                # links before, between or after the plain attributes, depending on the pattern
+                d_.attrs.insert((pat + i + j) % (len(d_.attrs) + 1) if j == 0 else len(d_.attrs), link)
+                made += sub
+            return made
+
+        made = mk(tree)
+        roots.append(made[0])
+        kids += made
+    return g.ElfFile([g.Unit(g.cu_root(b"both.c", version=version, children=kids), version, 4)]), roots
+
+
+def reachable(d_):
+    out, work = [], [d_]
+    while work:
+        x = work.pop()
+        out.append(x)
+        for a in x.attrs:
+            if g.cst(a.name) in (dwmodel.AT_SPEC, dwmodel.AT_AO) and isinstance(a.value, g.Die):
+                work.append(a.value)
+    return out
+
+
+BOTH_ITEMS = {
+    "attrs": ("attribute", "entry"),
+    "at_name": ("@AT_name", "entry"),
+    "name_attr": ("attribute ?AT_name cooked value", "entry"),
+    "name_word": ("name", "entry"),
+    "at_line": ("@AT_decl_line", "entry"),
+    "line_attr": ("attribute ?AT_decl_line cooked value", "entry"),
+    "has_name": ("?AT_name", "entry"),
+    "hasnt_name": ("!AT_name", "entry"),
+    "has_line": ("?AT_decl_line", "entry"),
+}
+BOTHBAT = Battery(BOTH_ITEMS)
+
+
+def judge_both(view, got):
+    """got: qid -> [(input canon, [results])].  The property fixes: own attributes first and in stored order, then every
+    integrable attribute reachable through the links that the DIE lacks, no name twice; and the agreement of the words."""
+    fid = view.fid
+    bad = []
+    cooked = view.cooked_entries()
+    canon = lambda d_, i=0: dwmodel.die_canon(fid, d_, False, (), i)
+    by_in = {q: dict((k.rsplit("@", 1)[0], v) for k, v in got[q]) for q in got}
+    for i, (d_, _) in enumerate(cooked):
+        key = canon(d_, 0).rsplit("@", 1)[0]
+        res = by_in["attrs"].get(key)
+        if res is None:
+            bad.append(("attrs", "DIE %#x was not visited by `entry`" % d_.offset))
+            continue
+        own, seen = [], set()
+        for a in d_.attrs:
+            if g.cst(a.name) not in seen:
+                seen.add(g.cst(a.name))
+                own.append(dwmodel.attr_canon(fid, g.cst(a.name), g.cst(a.form), d_, False, len(own)))
+        if res[:len(own)] != own:
+            bad.append(("attrs", "`attribute` on DIE %#x starts with %s, its own attributes are %s" % (d_.offset, res[:len(own)], own)))
+            continue
+        holders = {}
+        for x in reachable(d_)[1:]:
+            for a in x.attrs:
+                n = g.cst(a.name)
+                if n in seen or n in (dwmodel.AT_SIBLING, dwmodel.AT_DECL):
+                    continue
+                holders.setdefault(n, []).append((a, x))
+        rest = res[len(own):]
+        names = []
+        for k, r in enumerate(rest):
+            ok = False
+            for n, hl in holders.items():
+                if any(r == dwmodel.attr_canon(fid, n, g.cst(a.form), x, False, len(own) + k) for a, x in hl):
+                    names.append(n)
+                    ok = True
+                    break
+            if not ok:
+                bad.append(("attrs", "`attribute` on DIE %#x yields %s, which no DIE reachable from it through specification / abstract_origin stores (or which it has itself)" % (d_.offset, r)))
+        if sorted(names) != sorted(holders):
+            bad.append(("attrs", "`attribute` on DIE %#x integrates the names %s; the names it lacks and can reach are %s (each exactly once)" % (
+                d_.offset, sorted(names), sorted(holders))))
+        for a_q, b_q, what in (("at_name", "name_attr", "`@AT_name` vs `attribute ?AT_name cooked value`"), ("at_name", "name_word", "`@AT_name` vs `name`"),
+                               ("at_line", "line_attr", "`@AT_decl_line` vs `attribute ?AT_decl_line cooked value`")):
+            if by_in[a_q].get(key) != by_in[b_q].get(key):
+                bad.append((b_q, "%s on DIE %#x: %s vs %s" % (what, d_.offset, by_in[a_q].get(key), by_in[b_q].get(key))))
+        can_name = any(g.cst(a.name) == g.DW["DW_AT_name"] for x in reachable(d_) for a in x.attrs)
+        can_line = any(g.cst(a.name) == g.DW["DW_AT_decl_line"] for x in reachable(d_) for a in x.attrs)
+        for q, want in (("has_name", can_name), ("hasnt_name", not can_name), ("has_line", can_line)):
+            if bool(by_in[q].get(key)) != want:
+                bad.append((q, "`%s` on DIE %#x %s, but the attribute is %s" % (BOTH_ITEMS[q][0], d_.offset, "holds" if by_in[q].get(key) else "does not hold",
+                                                                              "reachable" if want == (q != "hasnt_name") else "not reachable")))
+        if bool(by_in["at_name"].get(key)) != can_name:
+            bad.append(("at_name", "`@AT_name` on DIE %#x yields %s, reachable: %s" % (d_.offset, by_in["at_name"].get(key), can_name)))
+    return bad
+
+
+def _both_worker(d, chunk, extra):
+    os.makedirs(dwbattery.DWDIR, exist_ok=True)
+    path = os.path.join(dwbattery.DWDIR, "c06b-%d.o" % os.getpid())
+    out = {"files": 0, "queries": 0, "results": 0, "dies": 0, "bad": []}
+    for tree in chunk:
+        elf, roots = both_file(tree)
+        elf.write(path)
+        view = dwmodel.View(elf, 1)
+        BOTHBAT.install(d)
+        rs = d.batch(["open id=d1 path=" + drv.hx(path)] + BOTHBAT.cmds() + ["close id=d1"])
+        got, broken = {}, False
+        for (qid, (q, p)), r in zip(BOTH_ITEMS.items(), rs[1:-1]):
+            if r.crash:
+                out["bad"].append(("both:%r|%s" % (tree, qid), "link tree %r: `%s` died: %s %s" % (tree, q, r.crash[0], r.crash[1][-400:]), {"part": "both", "tree": repr(tree), "qid": qid}))
+                broken = True
+                break
+            if r.stderr:
+                out["bad"].append(("both:%r|%s:stderr" % (tree, qid), "link tree %r: `%s` printed %r" % (tree, q, r.stderr[:200]), {"part": "both", "tree": repr(tree), "qid": qid}))
+            got[qid] = dwbattery.parse_groups(r)
+            out["results"] += sum(len(x[1]) for x in got[qid])
+        out["files"] += 1
+        out["queries"] += len(BOTH_ITEMS)
+        out["dies"] += len(view.raw_entries())
+        if not broken:
+            seen = set()
+            for qid, what in judge_both(view, got):
+                if qid not in seen:
+                    seen.add(qid)
+                    out["bad"].append(("both:%r|%s" % (tree, qid), "link tree %r: %s" % (tree, what), {"part": "both", "tree": repr(tree), "qid": qid}))
+    try:
+        os.unlink(path)
+    except OSError:
+        pass
+    return out
+
+
+LONG_HOPS = (15, 16, 17, 18, 33)
+
+
+def long_chain_file(version=4):
+    """Chains of LONG_HOPS hops (all specification, all abstract_origin, alternating) with name / decl_line at the far end,
+    in the middle, or nowhere.  Returns ElfFile."""
+    kids = []
+    for hops in LONG_HOPS:
+        for kinds in ("s" * hops, "a" * hops, ("sa" * hops)[:hops]):
+            for where in ("end", "mid", "none"):
+                dies = [D("DW_TAG_subprogram", []) for _ in range(hops + 1)]
+                at = {"end": hops, "mid": hops // 2 + 1, "none": None}[where]
+                if at is not None:
+                    dies[at].attrs += [A("DW_AT_name", "DW_FORM_string", b"far%d" % hops), A("DW_AT_decl_line", "DW_FORM_data1", hops)]
+                for i in range(hops):
+                    dies[i].attrs.append(A("DW_AT_specification" if kinds[i] == "s" else "DW_AT_abstract_origin", "DW_FORM_ref4", dies[i + 1]))
+                kids += dies
+    return g.ElfFile([g.Unit(g.cu_root(b"long.c", version=version, children=kids), version, 4)])
+
+
+def _long_worker(d, chunk, extra):
+    os.makedirs(dwbattery.DWDIR, exist_ok=True)
+    path = os.path.join(dwbattery.DWDIR, "c06l-%d.o" % os.getpid())
+    out = {"files": 0, "queries": 0, "results": 0, "dies": 0, "bad": []}
+    for version in chunk:
+        elf = long_chain_file(version)
+        elf.write(path)
+        view = dwmodel.View(elf, 1)
+        nq, nr, bad = dwbattery.run_file(d, CHAINBAT, elf, path, chain_expected(view))
+        out["files"] += 1
+        out["queries"] += nq
+        out["results"] += nr
+        out["dies"] += len(view.raw_entries())
+        for qid, what in bad[:6]:
+            out["bad"].append(("long:%d|%s" % (version, qid), "chains of %s hops (DWARF %d): %s" % (list(LONG_HOPS), version, what), {"part": "long", "version": version, "qid": qid}))
+    try:
+        os.unlink(path)
+    except OSError:
+        pass
+    return out
+
+
 def _import_worker(d, task, extra):
     thorough, k, m = task
     os.makedirs(dwbattery.DWDIR, exist_ok=True)
@@ -248,6 +473,11 @@ def replay(case):
     try:
         if case["part"] == "chain":
             r = _chain_worker(d, [tuple(case["shape"])], None)
+        elif case["part"] == "both":
+            import ast as _ast
+            r = _both_worker(d, [_ast.literal_eval(case["tree"])], None)
+        elif case["part"] == "long":
+            r = _long_worker(d, [case["version"]], None)
         elif case["part"] == "import":
             desc = json.loads(case["desc"])
             desc = (desc[0], tuple(desc[1]), desc[2], desc[3], desc[4])
@@ -272,6 +502,18 @@ def main(ctx):
         for k in ("files", "queries", "results", "dies"):
             ctx.count(k, r[k])
         ctx.count("chain_files", r["files"])
+        for key, what, case in r["bad"]:
+            ctx.violation(key, what, case)
+    trees = [t for n in range(1, (6 if thorough else 5)) for t in link_trees(n) if any(len(x) == 2 for x in all_nodes(t))]
+    for r in common.pmap(ctx, _both_worker, [[t] for t in trees], bins["zwdrv"], "full", timeout=300, cmd_timeout=120):
+        for k in ("files", "queries", "results", "dies"):
+            ctx.count(k, r[k])
+        ctx.count("both_link_files", r["files"])
+        for key, what, case in r["bad"]:
+            ctx.violation(key, what, case)
+    for r in common.pmap(ctx, _long_worker, [[4], [5]], bins["zwdrv"], "full", timeout=300, cmd_timeout=120, procs=2):
+        for k in ("files", "queries", "results", "dies"):
+            ctx.count(k, r[k])
         for key, what, case in r["bad"]:
             ctx.violation(key, what, case)
     m = 128
@@ -305,9 +547,11 @@ def main(ctx):
         "rule": "state = one DIE of a generated input (every presence pattern of three attribute names over a specification/abstract_origin chain; every import graph) "
                 "on which every battery query is evaluated and compared with the model; sugar laws: one query per vocabulary word, evaluated on every DIE/attribute/op of sample files",
         "bounds": {"hops": 3 if thorough else 2, "link_kind_sequences": "all", "cross_unit": "same unit (ref4) and alternating units (ref_addr)",
-                   "presence_patterns": "8^(hops+1) per shape", "sugar_words": {k: len(v) for k, v in words.items()}, "files": n},
+                   "presence_patterns": "8^(hops+1) per shape", "link_trees_with_a_two_link_DIE": {"max_dies": 5 if thorough else 4, "trees": len(trees), "patterns": "4^dies"},
+                   "long_chains_hops": list(LONG_HOPS), "sugar_words": {k: len(v) for k, v in words.items()}, "files": n},
     }
     return ctx.finish("model_checking", cov, [
-        "each DIE carries at most one of DW_AT_specification / DW_AT_abstract_origin (the property speaks of chains)",
+        "DIEs that carry both DW_AT_specification and DW_AT_abstract_origin: the order in which the two branches are integrated is not fixed by the property; "
+        "the check demands own attributes first, every reachable lacking name exactly once from some reachable DIE, and the agreement of @AT_x / attribute ?AT_x / ?AT_x / name",
         "the generator's model is the reference; law queries rely on the engine's own `==`",
     ], replay)
